@@ -489,7 +489,7 @@ func referenceSequence(c searchCfg, a int) ([]string, error) {
 
 func genSaveLoadCase(t *rapid.T) saveLoadCase {
 	c := saveLoadCase{Cfg: genSearchCfg(t, sz(6, 7))}
-	big := rare(t, "bigcfg", uint64(sz(12, 6)))
+	big := rare(t, "bigcfg", uint64(sz(16, 10)))
 	if big {
 		// 9..10 vertices under a strong predicate: path counters and choice stacks beyond the small-n regime
 		preds := append(append([]predSpec{}, strongPreds...), predSpec{Kind: "bipartite"}, predSpec{Kind: "and", Sub: []predSpec{{Kind: "kfree", K: 3}, {Kind: "maxdeg", K: 4}}},
@@ -664,6 +664,7 @@ type saveEveryCase struct {
 	A      int
 	Stride int // 0 or 1: every position; otherwise only positions k with k % Stride == Offset (large configurations are split)
 	Offset int
+	Prefix int // 0: the loaded iterator is drained; otherwise it is compared on its next Prefix graphs (drained at every 16th position)
 }
 
 // checkSaveEveryPosition: save at EVERY position k of the run (before the first Next, after each graph, after exhaustion)
@@ -699,6 +700,9 @@ func checkSaveEveryPosition(c saveEveryCase, rec *Rec) error {
 			return fmt.Errorf("%s: Load at position %d panicked: %v", desc, k, p)
 		}
 		for pos := min(k, len(ref)); ; pos++ {
+			if c.Prefix > 0 && (k/max(c.Stride, 1))%16 != 0 && pos >= k+c.Prefix {
+				break // a wrong resume shows at once; the full remainder is compared at every 16th position of the slice
+			}
 			var ok bool
 			if p := try(func() { ok = ld.Next() }); p != nil {
 				return fmt.Errorf("%s: loaded iterator (saved at %d) panicked at %d: %v", desc, k, pos, p)
@@ -745,7 +749,7 @@ func enumSaveEvery(yield func(saveEveryCase) bool) {
 				if idx%NShards != Shard {
 					continue
 				}
-				if !yield(saveEveryCase{Cfg: searchCfg{N: 10, M: 1, Pred: p, Placement: "prune"}, Stride: 32, Offset: off}) {
+				if !yield(saveEveryCase{Cfg: searchCfg{N: 10, M: 1, Pred: p, Placement: "prune"}, Stride: 32, Offset: off, Prefix: 300}) {
 					return
 				}
 			}
@@ -786,9 +790,9 @@ func init() {
 		"enumeration: every (n <= 6 quick / 8 thorough) x (m <= 3 / 4) x {none, maxdeg<=2, maxdeg<=3, triangle-free, K4-free, <=6 edges, forest, bipartite, triangle-free and maxdeg<=3, forest or <=4 edges} x {prune, preprune, split}; plus n = 9..10 (thorough 11) under the strong predicates with m in {1,3}; thorough adds All(9) and triangle-free n=9 m=3. Same checks as C03_search_generated.",
 		true, Budget{Shards: 1}, Budget{Shards: 8}, enumSearchCfgs, checkSearchCfg)
 	RegisterRapid("C04_save_load_scripts",
-		"rapid: a search configuration (n <= 6/7, m <= 3, shard a, DSL predicate; about one case in twelve (thorough: six) n = 9..10 under a strong predicate incl. bipartite, triangle-free with max degree <= 4 and independence number <= 2, i.e. thousands of graphs, path counters above 255) and a script over up to 5 live iterators: Next x k (k up to 2000, so exhaustion is reached), Save(iterator) -> blob (in half of the cases successive saves of an iterator reuse one reset buffer), Load(blob) -> new iterator, including chains save-load-advance-save. Oracle: the uninterrupted output sequence (graph, M, Degrees as text). Every Next of every iterator must return the reference graph at that iterator's position; at the end all iterators are drained round-robin to exactly the reference suffix, exhausted iterators stay exhausted, and every blob is loaded once more and must still resume correctly (so a blob shares nothing with live iterators). Non-trivial: a save strictly inside the run with n >= 4.",
-		Budget{Checks: 600, Shards: 1}, Budget{Checks: 1500, Shards: 16}, genSaveLoadCase, checkSaveLoadCase)
+		"rapid: a search configuration (n <= 6/7, m <= 3, shard a, DSL predicate; about one case in sixteen (thorough: ten) n = 9..10 under a strong predicate incl. bipartite, triangle-free with max degree <= 4 and independence number <= 2, i.e. thousands of graphs, path counters above 255) and a script over up to 5 live iterators: Next x k (k up to 2000, so exhaustion is reached), Save(iterator) -> blob (in half of the cases successive saves of an iterator reuse one reset buffer), Load(blob) -> new iterator, including chains save-load-advance-save. Oracle: the uninterrupted output sequence (graph, M, Degrees as text). Every Next of every iterator must return the reference graph at that iterator's position; at the end all iterators are drained round-robin to exactly the reference suffix, exhausted iterators stay exhausted, and every blob is loaded once more and must still resume correctly (so a blob shares nothing with live iterators). Non-trivial: a save strictly inside the run with n >= 4.",
+		Budget{Checks: 450, Shards: 1}, Budget{Checks: 600, Shards: 16}, genSaveLoadCase, checkSaveLoadCase)
 	RegisterEnum("C04_save_at_every_position",
-		"enumeration: for every (n <= 5 quick / 6 thorough, m <= 3, a < m, predicate none / triangle-free) Save is called at EVERY position k = 0..len(output)+1 (before the first Next, after each graph, after exhaustion); the loaded iterator must yield exactly the remaining graphs and the original must continue undisturbed. Thorough adds every position of the bipartite search and of the search for graphs without an independent set of size 3 on 10 vertices (5479 and 12172 graphs; the latter has 9-vertex parents of minimum degree >= 4, hence path counters above 255). Complete over save positions for those configurations.",
+		"enumeration: for every (n <= 5 quick / 6 thorough, m <= 3, a < m, predicate none / triangle-free) Save is called at EVERY position k = 0..len(output)+1 (before the first Next, after each graph, after exhaustion); the loaded iterator must yield exactly the remaining graphs and the original must continue undisturbed. Thorough adds every position of the bipartite search and of the search for graphs without an independent set of size 3 on 10 vertices (5479 and 12172 graphs; the latter has 9-vertex parents of minimum degree >= 4, hence path counters above 255); there the loaded iterator is compared on its next 300 graphs at every position and drained at every 16th. Complete over save positions for those configurations.",
 		true, Budget{Shards: 1}, Budget{Shards: 8}, enumSaveEvery, checkSaveEveryPosition)
 }
